@@ -102,17 +102,35 @@ def strip_comments(src):
     return src
 
 
-def forbidden_tokens():
+def import_closure(roots):
+    """project files transitively imported by the given modules (only modules of this lake project)"""
+    seen, todo = {}, list(roots)
+    while todo:
+        m = todo.pop()
+        if m in seen:
+            continue
+        p = os.path.join(LEAN, *m.split(".")) + ".lean"
+        if not os.path.exists(p):
+            continue
+        with open(p) as f:
+            src = f.read()
+        seen[m] = p
+        for imp in re.findall(r"^\s*import\s+([\w.]+)", src, flags=re.M):
+            if imp.split(".")[0] in ("PepperModel", "PepperProofs", "PepperProps", "Driver"):
+                todo.append(imp)
+    return seen
+
+
+def forbidden_tokens(pid=None):
+    """sorry / admit / own axioms / native_decide … in the files the property's theorems and the driver depend on"""
     hits = []
-    for sub in ("PepperModel", "PepperProofs", "PepperProps", "Driver"):
-        for root, _, files in os.walk(os.path.join(LEAN, sub)):
-            for fn in files:
-                if fn.endswith(".lean"):
-                    p = os.path.join(root, fn)
-                    with open(p) as f:
-                        src = strip_comments(f.read())
-                    for m in FORBIDDEN.finditer(src):
-                        hits.append("%s: %s" % (os.path.relpath(p, LEAN), m.group(0).strip()))
+    roots = ["Driver.Main"] + (["PepperProps." + pid] if pid else [])
+    files = import_closure(roots)
+    for m, p in sorted(files.items()):
+        with open(p) as f:
+            src = strip_comments(f.read())
+        for mm in FORBIDDEN.finditer(src):
+            hits.append("%s: %s" % (os.path.relpath(p, LEAN), mm.group(0).strip()))
     return hits
 
 
@@ -163,7 +181,7 @@ def lean_prepare(pid, need_driver=True, leanchecker=False):
             st.driver_ok = (rc == 0 and os.path.exists(PEPPERD))
             if not st.driver_ok:
                 st.broken.append({"kind": "model", "name": "pepperd", "detail": (out + err)[-1200:]})
-        bad = forbidden_tokens()
+        bad = forbidden_tokens(pid)
         if bad:
             st.broken.append({"kind": "audit", "name": "forbidden-tokens", "detail": "; ".join(bad[:10])})
         if prop_ok and st.theorems:
